@@ -137,7 +137,12 @@ func c02Gen(rng *rand.Rand, m *model.Model, keys []string) []string {
 		return []string{"INCRBYFLOAT", k, pick(rng, floatArgs)}
 	case 26, 27:
 		a := []string{"LCS", pick(rng, keys), pick(rng, keys)}
-		switch rng.Intn(6) {
+		switch rng.Intn(8) {
+		case 6:
+			// the two result forms at once, in both orders: refused
+			a = append(a, "IDX", "LEN")
+		case 7:
+			a = append(a, "LEN", "IDX", "WITHMATCHLEN")
 		case 0:
 			a = append(a, "LEN")
 		case 1:
@@ -162,7 +167,7 @@ func checkC02(r *verdict.Run) {
 	r.Rule = "random sequences of string/counter commands over 4 string keys + one key of each other type + an expiring key + a missing key, arguments from boundary pools (offsets around the current length, boundary integers, near-integers, floats, every SET option subset in random order and case); " +
 		"oracle per step: reply = reference model reply, observable state of every key = model state, error replies leave the state unchanged. distinct = (command+options, prior key class, outcome class)"
 	runDiffSequences(r, tierPick(r, 300, 6000), func(rng *rand.Rand) int { return 30 + rng.Intn(50) },
-		[]string{"s0", "s1", "s2", "s3", "kl", "kh", "kset", "ke", "km"}, seedCommands(), c02Gen)
+		[]string{"s0", "s1", "s2", "s3", "kl", "kh", "kset", "ke", "km", "0aaaaaaa", "8aaaaaaa"}, seedCommands(), c02Gen)
 }
 
 // runDiffSequences is the common engine of the single-connection differential checks.
